@@ -79,6 +79,13 @@ def load(modname, extra=None):
         raise RuntimeError('%s was imported from %s, not from %s' % (modname, f, REPO))
     patch(mod, extra)
     _loaded[modname] = mod
+    try:        # the repo registers a citation banner with atexit; keep check output clean
+        import atexit
+        cit = sys.modules.get('enspara.citation.citation')
+        if cit is not None:
+            atexit.unregister(cit.citation_printer)
+    except Exception:
+        pass
     return mod
 
 
